@@ -177,7 +177,7 @@ func probeOrder(pk *packages.Package, fn *core.FuncInfo) []string {
 
 func checkC11(r *core.Result) {
 	r.Explanation = "Dispatcher-family analysis of the runtime-agnostic API (marshal.go, sizeof.go, clone.go, equal.go, reset.go, marshal_text.go, message_types.go, grpc_codec.go): regions of code that run for one runtime (case MessageTypeX arms, successful comma-ok assertions to a runtime's interface) are extracted; D1 every reference inside a region names that runtime's packages (family taken from the import the source names); D2 every switch over MsgType has arms for the three supported runtimes and its fall-through does not panic (Reset excepted); D3 assertions inside a region name the region's runtime; " +
-		"D4 classification soundness: each `return MessageTypeX` of deduceMsgType is dominated by a successful assertion whose method set includes every interface the X arms assert without a check; D5 Marshal, Unmarshal and Size probe the interface families in the same order; D6 the classification cache is touched only through sync.Map methods and no package-level variable is written; D7 the gRPC codec is named \"proto\" and forwards to Marshal/Unmarshal; D8 transparency: Clone, Equal and MarshalText consist of the dispatch only (plus the documented TextMarshaler probe / type-mismatch test), each runtime arm calls exactly the runtime function that defines the runtime's own result (Clone, Equal, MarshalTextString / prototext.Format), returns what it produced and does not post-process it."
+		"D4 classification soundness: each `return MessageTypeX` of deduceMsgType is dominated by a successful assertion whose method set includes every interface the X arms assert without a check; D5 Marshal, Unmarshal and Size probe the interface families in the same order; D6 the classification cache is touched only through sync.Map methods and no package-level variable is written; D7 the gRPC codec is named \"proto\" and forwards to Marshal/Unmarshal; D8 transparency: Clone, Equal and MarshalText consist of the dispatch only (plus the documented TextMarshaler probe / type-mismatch test), each runtime arm calls exactly the runtime function that defines the runtime's own result (Clone, Equal, MarshalTextString / prototext.Format), returns what it produced and does not post-process it; D9 probe forwarders: Marshal, Unmarshal and Size are sequences of `if v, ok := msg.(I); ok { return <call> }` guarded by the positive ok of their own assertion, each returning the table's method of the asserted value (Marshal/XXX_Marshal/proto.Marshal …, with the data parameter passed on and an empty buffer for the appending XXX_Marshal), followed only by the documented fall-back result."
 	r.RuleText = "one obligation per region / switch / classification return / probe sequence"
 	r.Assumptions = []string{"not decided: equality of results with the owning runtime (delegated calls), data-race freedom of first classification beyond 'only sync.Map operations'"}
 	r.Trusted = []string{"go/types", "family table (import path → runtime)"}
@@ -194,6 +194,8 @@ func checkC11(r *core.Result) {
 	r.Floor("MsgType switches", len(switches), 3)
 	checkRegions(r, prog, root, regs)
 	checkMsgSwitches(r, prog, root, switches, map[string]bool{"Reset": true})
+	// D9: Marshal / Unmarshal / Size probes
+	checkProbeForwarders(r, prog, root)
 	// D8: Clone / Equal / MarshalText hand back the owning runtime's own result
 	checkForwarders(r, prog, root, "D8", "Clone", "Equal", "MarshalText")
 	// D4 uses the assertions of *all* dispatch files (extensions.go too)
